@@ -314,8 +314,8 @@ func (c *Ctx) inlineCall(fr *Frame, st *State, reach, name string, fn *ssa.Funct
 
 // callHavoc: a repo callee without contract: result unconstrained (typed), heap per inferred mod-set.
 func (c *Ctx) callHavoc(fr *Frame, st *State, reach, name string, pos token.Pos, fn *ssa.Function, args []Val, resType types.Type) Val {
-	ms := c.mods.Of(fn)
-	c.applyMods(st, ms)
+	ms := c.modsAtCurCall(fn)
+	c.callEffects(st, reach, pos, ms, c.w.keyOfAny(fn))
 	c.noteAssumption(fmt.Sprintf("callee %s has no contract: result unconstrained, effects = inferred mod-set", c.w.keyOfAny(fn)))
 	return c.freshResult(st, reach, name, resType)
 }
@@ -341,7 +341,7 @@ func (c *Ctx) callDynamic(fr *Frame, st *State, reach, name string, pos token.Po
 	if ps := c.paramSpecFor(fr, cc.Value); ps != nil {
 		return c.applyParamSpec(fr, st, reach, name, pos, ps, fv, args, resType)
 	}
-	c.applyMods(st, &ModSet{Top: true})
+	c.callEffects(st, reach, pos, &ModSet{Top: true}, "through function value "+cc.Value.Name())
 	c.noteAssumption("dynamic call through " + cc.Value.Name() + ": result unconstrained, all heap havoced")
 	return c.freshResult(st, reach, name, resType)
 }
@@ -391,7 +391,7 @@ func (c *Ctx) applyParamSpec(fr *Frame, st *State, reach, name string, pos token
 		c.assumeTyped(reach, res, resType, st, 1)
 	} else {
 		if ps.Assigns != "nothing" {
-			c.applyMods(st, &ModSet{Top: true})
+			c.callEffects(st, reach, pos, &ModSet{Top: true}, "function parameter "+ps.Name)
 		}
 		res = c.freshResult(st, reach, name, resType)
 	}
@@ -457,7 +457,7 @@ func (c *Ctx) applyContract(fr *Frame, st *State, reach, name string, pos token.
 		c.assume(reach, tv.T)
 	}
 	// effects
-	c.applyMods(st, c.contractMods(fn, con))
+	c.callEffects(st, reach, pos, c.contractMods(fn, con), con.Key)
 	res := c.freshResult(st, reach, name, resType)
 	post := c.newSpecEval(nil, st, pre)
 	post.pkg = con.Pkg
@@ -552,56 +552,26 @@ func (c *Ctx) dispatch(fr *Frame, st *State, reach, name string, pos token.Pos, 
 		c.noteAssumption("external interface method " + m.FullName() + ": result unconstrained, no effect on repo heap")
 		return c.freshResult(st, reach, name, resType)
 	}
-	if fr.depth >= 2 {
-		c.applyMods(st, &ModSet{Top: true})
-		c.noteAssumption("nested dynamic dispatch of " + m.FullName() + " not expanded: result unconstrained, heap havoced")
-		return c.freshResult(st, reach, name, resType)
-	}
+	// not a pure accessor: the implementations are not expanded. Result unconstrained (well-typed),
+	// effects = union of the implementers' inferred mod-sets.
 	iface := ifaceT.Underlying().(*types.Interface)
-	impls := c.w.Implementers(iface)
-	var conds []string
-	var sts []*State
-	var vals []Val
-	for _, it := range impls {
-		mset := c.w.Prog.MethodSets.MethodSet(it)
-		sel := mset.Lookup(m.Pkg(), m.Name())
+	ms := newModSet()
+	for _, it := range c.w.Implementers(iface) {
+		sel := c.w.Prog.MethodSets.MethodSet(it).Lookup(m.Pkg(), m.Name())
 		if sel == nil {
 			continue
 		}
-		mfn := c.w.Prog.MethodValue(sel)
-		if mfn == nil {
-			continue
+		if mfn := c.w.Prog.MethodValue(sel); mfn != nil {
+			if s, ok := c.mods.sets[mfn]; ok {
+				ms.union(s, true)
+			} else {
+				ms.Top = true
+			}
 		}
-		cond := c.define(fmt.Sprintf("%s_is_%s", name, shortTypeName(it)), "Bool", and(reach, fmt.Sprintf("(= (dtype %s) %s)", rt, c.tagOf(it))))
-		bst := st.clone()
-		recvVal := Val{T: rt, Typ: it}
-		if !isRefLike(it) {
-			s := c.sorts.Of(it)
-			c.useUnbox(s)
-			recvVal = Val{T: fmt.Sprintf("(%s %s)", unboxName(s), rt), Typ: it}
-		}
-		// wrappers for embedded/promoted methods are synthetic: call through them by inlining
-		r := c.callMethodImpl(fr, bst, cond, name, pos, mfn, append([]Val{recvVal}, args...), resType)
-		conds = append(conds, cond)
-		sts = append(sts, bst)
-		vals = append(vals, r)
 	}
-	if len(conds) == 0 {
-		c.unsupportedf("invoke %s: no implementers", m.Name())
-		return c.freshResult(st, reach, name, resType)
-	}
-	// closed world: receiver's dtype is one of the implementers
-	var alts []string
-	for _, it := range impls {
-		alts = append(alts, fmt.Sprintf("(= (dtype %s) %s)", rt, c.tagOf(it)))
-	}
-	c.assume(reach, or(alts...))
-	merged := c.mergeStates(conds, sts)
-	*st = *merged
-	if tup, ok := resType.(*types.Tuple); ok && tup.Len() == 0 {
-		return Val{Typ: resType}
-	}
-	return c.mergeVals(conds, vals, resType, name)
+	c.callEffects(st, reach, pos, ms, "interface method "+m.Name())
+	c.noteAssumption("interface method " + m.FullName() + " (not a pure accessor): result unconstrained, effects = union of implementers' inferred mod-sets")
+	return c.freshResult(st, reach, name, resType)
 }
 
 func (c *Ctx) callMethodImpl(fr *Frame, st *State, reach, name string, pos token.Pos, mfn *ssa.Function, args []Val, resType types.Type) Val {
@@ -763,7 +733,7 @@ func (c *Ctx) freshOrAssignable(ref string) string {
 //	assigns <objects>      -> the inferred mod-set (which arrays), objects not yet distinguished
 //	no assigns clause      -> the inferred mod-set
 func (c *Ctx) contractMods(fn *ssa.Function, con *Contract) *ModSet {
-	inf := c.mods.Of(fn)
+	inf := c.modsAtCurCall(fn)
 	if !con.HasAssigns {
 		return inf
 	}
@@ -790,4 +760,39 @@ func (c *Ctx) contractMods(fn *ssa.Function, con *Contract) *ModSet {
 		}
 	}
 	return inf
+}
+
+// callEffects applies a callee's heap effects and, for the FRAME family, demands that a callee which may
+// write pre-existing memory is covered by the caller's own assigns clause.
+func (c *Ctx) callEffects(st *State, reach string, pos token.Pos, ms *ModSet, what string) {
+	if c.wants("FRAME") && ms != nil && (ms.Top || len(ms.Arrays) > 0) {
+		allowed := false
+		if c.contract != nil && c.contract.HasAssigns {
+			for _, a := range c.contract.Assigns {
+				if a == "EC" || a == "heap" {
+					allowed = true
+				}
+			}
+			if len(c.contract.Assigns) > 0 && !ms.Top {
+				allowed = true // object-level assigns: which objects is checked at the stores of the callee's own contract
+			}
+		}
+		if !allowed {
+			d := "callee " + what + " may write pre-existing memory ("
+			if ms.Top {
+				d += "unknown effects"
+			} else {
+				d += strings.Join(sortedKeys(ms.Arrays), ",")
+			}
+			c.oblige("FRAME", "FRAME.call", pos, reach, "false", d+") but this function's frame does not allow it")
+		}
+	}
+	c.applyMods(st, ms)
+}
+
+func (c *Ctx) modsAtCurCall(fn *ssa.Function) *ModSet {
+	if c.curCall != nil && c.curCall.StaticCallee() == fn {
+		return c.mods.AtCall(fn, c.curCall.Args)
+	}
+	return c.mods.AtCall(fn, nil)
 }
